@@ -29,7 +29,7 @@ CHECKS = {
    note="Sampled and coverage-guided inputs; tproxy/redirect and kernel faults not driven; a crash in any goroutine ends the child and is attributed through the case log.",
    tech="runtime monitoring: hostile-input workloads (sampled + coverage-guided fuzzing engine) under checkptr / instrumented builds with crash/hang oracle"),
  "C08": dict(cat="exploration",
-   text="Real cred.Manager over the CredStores of a real SS2022 TCP and UDP server: sequential histories (add/update/delete incl. duplicate keys and same-key updates, reloads of operator-edited / restored / corrupt files, debounced saves on a virtual clock) and concurrent operations; after every step the API listing, real TCP+UDP handshakes for every key of the universe and the store file are compared; concurrent API histories are checked with porcupine against a user-map model; a hook-directed part holds the saver at its verif hook points while further operations land inside the save window, then compares file, listing and handshakes; a signal part edits the store file of a running service (delete / rotate / add / swap users, or an unloadable file), sends the process a real SIGUSR1 and tries every key of the universe for a new TCP connection and a new UDP session over real sockets.",
+   text="Real cred.Manager over the CredStores of a real SS2022 TCP and UDP server: sequential histories (add/update/delete incl. duplicate keys and same-key updates, reloads of operator-edited / restored / corrupt files, debounced saves on a virtual clock) and concurrent operations; after every step the API listing, real TCP+UDP handshakes for every key of the universe and the store file are compared; concurrent API histories are checked with porcupine against a user-map model; a hook-directed part holds the saver at its verif hook points while further operations land inside the save window, then compares file, listing and handshakes; an opwindow part parks one operation at its before-publish hook while a conflicting one runs and compares listing and handshakes afterwards; a signal part edits the store file of a running service (delete / rotate / add / swap users, or an unloadable file), sends the process a real SIGUSR1 and tries every key of the universe for a new TCP connection and a new UDP session over real sockets.",
    note="Small universe (4 names x 4 keys; 6 keys in the signal part); the sequential/concurrent parts call the manager's public methods, the api part goes through the real REST API over loopback; a key that must no longer work is given 2 s (TCP) / 0.4 s (UDP) of real time to be served before it counts as refused.",
    tech="runtime monitoring: three-view consistency oracle + reference map model + porcupine + race detector (synctest virtual clock)"),
  "C14": dict(cat="exploration",
